@@ -221,8 +221,10 @@ struct D
 		Val r;
 		switch (w) {
 		case 0: { int x = c.rng.chance(0.2) ? (c.rng.chance(0.5) ? INT_MIN : INT_MAX) : c.rng.range(-1000, 1000); c.op(vf::fmt("%s=int %d", where.c_str(), x)); if (c.rng.chance(0.5)) *var = x; else *var = Var(x); r.t = M_INT; r.d = x; break; }
-		case 1: { unsigned x = c.rng.chance(0.5) ? (unsigned)c.rng.below(1000) : 2147483648u + c.rng.below(1000000); c.op(vf::fmt("%s=unsigned %u", where.c_str(), x)); if (c.rng.chance(0.5)) *var = x; else *var = Var(x); r.t = x < 2147483648u ? M_INT : M_NUMBER; r.d = x; break; }
-		case 2: { Long x = (Long)(c.rng.next() >> c.rng.range(1, 40)) * (c.rng.chance(0.5) ? -1 : 1); c.op(vf::fmt("%s=Long %lld", where.c_str(), (long long)x)); if (c.rng.chance(0.5)) *var = x; else *var = Var(x); r.t = M_NUMBER; r.d = (double)x; break; }
+		case 1: { static const unsigned UB[] = {0u, 1u, 2147483646u, 2147483647u, 2147483648u, 2147483649u, 4294967294u, 4294967295u};
+		          unsigned x = c.rng.chance(0.35) ? UB[c.rng.below(8)] : c.rng.chance(0.5) ? (unsigned)c.rng.below(1000) : 2147483648u + c.rng.below(1000000); c.op(vf::fmt("%s=unsigned %u", where.c_str(), x)); if (c.rng.chance(0.5)) *var = x; else *var = Var(x); r.t = x < 2147483648u ? M_INT : M_NUMBER; r.d = x; break; }
+		case 2: { static const Long LB[] = {2147483647LL, 2147483648LL, 2147483649LL, -2147483647LL, -2147483648LL, -2147483649LL, 4294967295LL, 4294967296LL, 9007199254740992LL, -9007199254740992LL, 0LL};
+		          Long x = c.rng.chance(0.3) ? LB[c.rng.below(11)] : (Long)(c.rng.next() >> c.rng.range(1, 40)) * (c.rng.chance(0.5) ? -1 : 1); c.op(vf::fmt("%s=Long %lld", where.c_str(), (long long)x)); if (c.rng.chance(0.5)) *var = x; else *var = Var(x); r.t = M_NUMBER; r.d = (double)x; break; }
 		case 3: { float x = (float)(c.rng.unit() * 200 - 100); if (c.rng.chance(0.3)) x = (float)c.rng.range(-5, 5); c.op(vf::fmt("%s=float %.9g", where.c_str(), x)); if (c.rng.chance(0.5)) *var = x; else *var = Var(x); r.t = M_FLOAT; r.d = x; break; }
 		case 4: case 5: { double x = c.rng.chance(0.3) ? (double)c.rng.range(-5, 5) : (c.rng.unit() - 0.5) * pow(10.0, c.rng.range(-5, 12)); c.op(vf::fmt("%s=double %.17g", where.c_str(), x)); if (c.rng.chance(0.5)) *var = x; else *var = Var(x); r.t = M_NUMBER; r.d = x; break; }
 		case 6: { bool x = c.rng.chance(0.5); c.op(vf::fmt("%s=bool %d", where.c_str(), x)); if (c.rng.chance(0.5)) *var = x; else *var = Var(x); r.t = M_BOOL; r.b = x; break; }
@@ -588,9 +590,16 @@ static void mode_eq(vf::Ctx& c)
 			Place p; p.slot = k;
 			int w = c.rng.below(6);
 			Val r;
-			if (w == 0) { int x = c.rng.range(-3, 3); *d.v[k] = x; r.t = M_INT; r.d = x; }
-			else if (w == 1) { double x = c.rng.range(-3, 3) + (c.rng.chance(0.3) ? 0.5 : 0); *d.v[k] = x; r.t = M_NUMBER; r.d = x; }
-			else if (w == 2) { float x = (float)c.rng.range(-3, 3) + (c.rng.chance(0.3) ? 0.5f : 0); *d.v[k] = x; r.t = M_FLOAT; r.d = x; }
+			// every third lattice uses neighbouring numbers around 2^24 and 2^31, where an int, a float and a double that look alike differ
+			static const int BI[] = {16777215, 16777216, 16777217, 16777218, 33554433, 2147483647, -16777217, -2147483647 - 1};
+			static const double BD[] = {16777216.0, 16777217.0, 16777218.0, 33554433.0, 2147483647.0, 2147483648.0, -16777217.0, -2147483648.0, 4294967296.0};
+			static const float BF[] = {16777216.0f, 16777218.0f, 33554432.0f, 2147483648.0f, -16777216.0f, -2147483648.0f};
+			bool big = rep % 3 == 2;
+			if (big && w == 5 && c.rng.chance(0.7)) w = (int)c.rng.below(3);
+			if (big && w == 3 && c.rng.chance(0.7)) w = (int)c.rng.below(3);
+			if (w == 0) { int x = big ? BI[c.rng.below(8)] : c.rng.range(-3, 3); *d.v[k] = x; r.t = M_INT; r.d = x; }
+			else if (w == 1) { double x = big ? BD[c.rng.below(9)] : c.rng.range(-3, 3) + (c.rng.chance(0.3) ? 0.5 : 0); *d.v[k] = x; r.t = M_NUMBER; r.d = x; }
+			else if (w == 2) { float x = big ? BF[c.rng.below(6)] : (float)c.rng.range(-3, 3) + (c.rng.chance(0.3) ? 0.5f : 0); *d.v[k] = x; r.t = M_FLOAT; r.d = x; }
 			else if (w == 3) { static const char* S[] = {"", "abcdefg", "abcdefgh", "abcdef", "abcdefg", "abcdefgh", "1", "true"}; const char* s = S[c.rng.below(8)]; if (c.rng.chance(0.5)) *d.v[k] = s; else { *d.v[k] = "a much longer string first"; *d.v[k] = s; } r.t = M_STRING; r.s = s; }
 			else if (w == 4) { bool x = c.rng.chance(0.5); *d.v[k] = x; r.t = M_BOOL; r.b = x; }
 			else { *d.v[k] = Var::NUL; r.t = M_NUL; }
